@@ -252,10 +252,27 @@ def caches_for(ex, w, handler, N, rich=False):
         caches[f'{kind}_views'] = MapV([(w.key(k), mk.tuple_struct(R.V + r'consensus::ViewNumber', v)) for k, v in zip(keys, views)], True)
         # certificates under construction exist only for views some validator voted in (cache invariant); here: for each such view (distinct, ascending)
         if len(views) == 2: ex.assume(views[0].e < views[1].e)
-        if ex.choose(2, 'qcs_cache') == 0:
+        qc_mode = ex.choose(3, 'qcs_cache')          # 0: empty certificates per voted view, 1: certificates with their signers, 2: no certificates cached
+        if qc_mode in (0, 1):
             ents = []
-            for v in views:
-                inner = MapV([], True) if kind == 'commit' else w.timeout_qc_empty(v)
+            for vi, v in enumerate(views):
+                if qc_mode == 0:
+                    inner = MapV([], True) if kind == 'commit' else w.timeout_qc_empty(v)
+                else:
+                    # signers of the certificate under construction for view v: everybody whose latest vote IS for v, and possibly
+                    # validators that voted for v earlier and have moved on to a later view since (their latest view is higher)
+                    bits = [False] * N
+                    for j, k in enumerate(keys):
+                        if j == vi: bits[k] = True
+                        elif j > vi and ex.choose(2, f'signed_earlier_{vi}_{j}') == 0: bits[k] = True
+                    signers = mk.tuple_struct(R.V + r'v2::consensus::Signers', M.BitVecV(bits))
+                    if kind == 'commit':
+                        msg = mk.adt(R.V + r'v2::replica_commit::ReplicaCommit', view=w.view(w.g0, v, w.e0), proposal=w.header(w.num(f'cache_qc{vi}_num'), z3.Int(f'cache_qc{vi}_hash')))
+                        qc = mk.adt(R.V + r'v2::replica_commit::CommitQC', message=msg, signers=signers, signature=c04.GhostAgg(groups=[], covers=[]))
+                        inner = MapV([(msg, qc)], True)
+                    else:
+                        msg = mk.adt(R.V + r'v2::replica_timeout::ReplicaTimeout', view=w.view(w.g0, v, w.e0), high_vote=none(), high_qc=none())
+                        inner = mk.adt(R.V + r'v2::replica_timeout::TimeoutQC', view=w.view(w.g0, v, w.e0), map=MapV([(msg, signers)], ordered=True), signature=c04.GhostAgg(groups=[], covers=[]))
                 ents.append((mk.tuple_struct(R.V + r'consensus::ViewNumber', v), inner))
             caches[f'{kind}_qcs'] = MapV(ents, True)
     return caches
